@@ -50,7 +50,20 @@ template<size_t K> static void undeclared_at() {
     must_refuse(what.c_str(), [] { parser p(list, TERMS, NTERMS, rules(GOOD_RULES, long_rule<K>(std::make_index_sequence<9>{}))); (void)p; });
 }
 template<size_t... K> static void undeclared_at_all(std::index_sequence<K...>) { (undeclared_at<K>(), ...); }
+// pairs of names that collide under widely used string hashes (FNV-1a 32, FNV-1 32, djb2, Java hashCode, CRC-32): a lookup that trusts a hash alone
+// would take one for the other
+struct NamePair { const char* a; const char* b; };
+static const NamePair colliding[] = {{"costarring", "liquid"}, {"declinate", "macallums"}, {"altarage", "zinke"}, {"creamwove", "quists"}, {"hetairas", "mentioner"},
+    {"heliotropes", "neurospora"}, {"depravement", "serafins"}, {"stylist", "subgenera"}, {"joyful", "synaphea"}, {"redescribed", "urites"}, {"dram", "vivency"},
+    {"Aa", "BB"}, {"AaAa", "BBBB"}, {"plumless", "buckeroo"}, {"codding", "gnu"}, {"exhibiters", "schlager"}};
+
 int main() {
+    for (const NamePair& np : colliding) {
+        static std::string what; what = std::string("nonterminal '") + np.b + "' used where only '" + np.a + "' is declared (names colliding under a common string hash)";
+        must_refuse(what.c_str(), [&] { nterm<int> x(np.a), y(np.b); parser p(list, TERMS, nterms(list, item, x), rules(GOOD_RULES, x('a') >= val(1), item(y))); (void)p; });
+        what = std::string("both '") + np.a + "' and '" + np.b + "' declared";
+        must_accept(what.c_str(), [&] { nterm<int> x(np.a), y(np.b); parser p(list, TERMS, nterms(list, item, x, y), rules(GOOD_RULES, x('a', ',') >= val(1), y("ab", ',') >= val(2), item(x, y))); (void)p; });
+    }
     undeclared_at_all(std::make_index_sequence<9>{});
     must_accept("9-symbol rule of declared symbols", [] { parser p(list, TERMS, NTERMS, rules(GOOD_RULES, a_run<9>(std::make_index_sequence<9>{}))); (void)p; });
     must_refuse("undeclared symbol in the 21st rule (after 15 filler rules)", [] { std::apply([](auto... f) { parser p(list, TERMS, NTERMS, rules(GOOD_RULES, f..., item(zz) >= val(9))); (void)p; }, filler_rules(std::make_index_sequence<15>{})); });
